@@ -521,3 +521,169 @@ func ruleRestrictASI(c *Ctx, r *R) {
 		}
 	}
 }
+
+// ---- PAIR-delimiters ---------------------------------------------------------------------------------------------------
+
+func init() {
+	register(&Rule{ID: "PAIR-delimiters", Props: []string{"C04", "C03"}, Min: 12,
+		Doc: "P (sibling agreement over the parser functions): a parser function that consumes an opening delimiter with expect(LEFT_BRACE / LEFT_PARENTHESIS / LEFT_BRACKET) consumes the matching closing delimiter with expect(RIGHT_...) on every path to a return on which no error was recorded. A function that leaves its loop at end of input and returns without the closing expect accepts a truncated construct (`switch (x) { case 1: y();`) - the program runs although it is not ES5, and the node's closing position stays 0",
+		Run: rulePairDelimiters})
+}
+
+func rulePairDelimiters(c *Ctx, r *R) {
+	closing := map[string]string{"LEFT_BRACE": "RIGHT_BRACE", "LEFT_PARENTHESIS": "RIGHT_PARENTHESIS", "LEFT_BRACKET": "RIGHT_BRACKET"}
+	tokOf := func(call *ssa.Call) string {
+		if len(call.Call.Args) < 2 {
+			return ""
+		}
+		k, ok := call.Call.Args[1].(*ssa.Const)
+		if !ok {
+			return ""
+		}
+		nt, ok := k.Type().(*types.Named)
+		if !ok {
+			return ""
+		}
+		v, ok := constInt(k)
+		if !ok {
+			return ""
+		}
+		return tokenNameOf(nt, v)
+	}
+	for _, fn := range c.AllSrcFuncs("parser") {
+		if fn.Parent() != nil {
+			continue
+		}
+		type site struct {
+			call *ssa.Call
+			tok  string
+		}
+		var opens []site
+		isExpect := func(ins ssa.Instruction) (*ssa.Call, string) {
+			call, ok := ins.(*ssa.Call)
+			if !ok {
+				return nil, ""
+			}
+			callee := call.Call.StaticCallee()
+			if callee == nil || callee.Name() != "expect" {
+				return nil, ""
+			}
+			return call, tokOf(call)
+		}
+		isErr := func(ins ssa.Instruction) bool {
+			call, ok := ins.(*ssa.Call)
+			if !ok {
+				return false
+			}
+			callee := call.Call.StaticCallee()
+			if callee == nil {
+				return false
+			}
+			switch callee.Name() {
+			case "error", "errorUnexpected", "errorUnexpectedToken", "nextStatement":
+				return true
+			}
+			return false
+		}
+		for _, b := range fn.Blocks {
+			for _, ins := range b.Instrs {
+				if call, tok := isExpect(ins); call != nil && closing[tok] != "" {
+					opens = append(opens, site{call, tok})
+				}
+			}
+		}
+		ord := map[string]int{}
+		for _, op := range opens {
+			want := closing[op.tok]
+			ord[op.tok]++
+			key := fmt.Sprintf("%s:%s#%d", ssaFuncName(fn), op.tok, ord[op.tok])
+			// a helper closes the delimiter when every error-free path through it passes expect(want)
+			var closes func(g *ssa.Function, depth int) bool
+			closes = func(g *ssa.Function, depth int) bool {
+				if g == nil || g.Blocks == nil || depth > 2 {
+					return false
+				}
+				open := false
+				seenG := map[*ssa.BasicBlock]bool{}
+				var w func(b *ssa.BasicBlock)
+				w = func(b *ssa.BasicBlock) {
+					if seenG[b] || open {
+						return
+					}
+					seenG[b] = true
+					for _, ins := range b.Instrs {
+						if _, tok := isExpect(ins); tok == want {
+							return
+						}
+						if isErr(ins) {
+							return
+						}
+						if call, ok := ins.(*ssa.Call); ok {
+							if callee := call.Call.StaticCallee(); callee != nil && callee != g && closes(callee, depth+1) {
+								return
+							}
+						}
+						if _, ok := ins.(*ssa.Return); ok {
+							open = true
+							return
+						}
+					}
+					for _, s := range b.Succs {
+						w(s)
+					}
+				}
+				w(g.Blocks[0])
+				return !open
+			}
+			// forward walk from the opening expect
+			var bad ssa.Instruction
+			seen := map[*ssa.BasicBlock]bool{}
+			var walk func(b *ssa.BasicBlock, start int)
+			walk = func(b *ssa.BasicBlock, start int) {
+				if bad != nil {
+					return
+				}
+				for i := start; i < len(b.Instrs); i++ {
+					ins := b.Instrs[i]
+					if _, tok := isExpect(ins); tok == want {
+						return
+					}
+					if call, ok := ins.(*ssa.Call); ok {
+						if callee := call.Call.StaticCallee(); callee != nil && callee.Pkg == fn.Pkg && callee.Name() != "expect" && closes(callee, 0) {
+							return
+						}
+					}
+					if isErr(ins) {
+						return
+					}
+					if _, ok := ins.(*ssa.Return); ok {
+						bad = ins
+						return
+					}
+				}
+				for _, s := range b.Succs {
+					if !seen[s] {
+						seen[s] = true
+						walk(s, 0)
+					}
+				}
+			}
+			idx := 0
+			for i, ins := range op.call.Block().Instrs {
+				if ins == ssa.Instruction(op.call) {
+					idx = i
+				}
+			}
+			walk(op.call.Block(), idx+1)
+			if bad == nil {
+				r.ok(key, c.Pos(instrPos(op.call)), "closed by expect("+want+") on every error-free path")
+			} else if why, ok := pairDelimitersReviewed[ssaFuncName(fn)+":"+op.tok]; ok {
+				r.ok("reviewed:"+key, c.Pos(instrPos(op.call)), why)
+			} else {
+				r.bad(key, c.Pos(instrPos(bad)), fmt.Sprintf("%s consumes %s with expect but can return (at %s) without expect(%s) and without having recorded an error: a construct cut off before its closing delimiter is accepted", ssaFuncName(fn), op.tok, c.Pos(instrPos(bad)), want))
+			}
+		}
+	}
+}
+
+var pairDelimitersReviewed = map[string]string{}
